@@ -101,7 +101,7 @@ CG = [
     ('message_id', 'fe2o3-amqp-types/src/messaging/format/message_id.rs', V, 'Field', 'a message-id is a ulong, a uuid, a binary or a string (AMQP 1.0 part 3, 3.2.11-3.2.14), in every width',
         [('Ulong', [0x80, 0x53, 0x44]), ('Uuid', [0x98]), ('Binary', [0xa0, 0xb0]), ('String', [0xa1, 0xb1])], None, 'C03 C05'),
     ('array_or_single', 'serde_amqp/src/primitives/array.rs', V, 'Field', 'a multiple field is an array (array8 / array32) of values or one bare value (AMQP 1.0 part 1, 1.4)',
-        [('Multiple', [0xe0, 0xf0])], None, 'C03 C05'),
+        [('Multiple', [0xe0, 0xf0])], 'Single', 'C03 C05'),
 ]
 for (mod, f, imp, en, what, table, dflt, props) in CG:
     labs = lambda s: ' '.join('[%s.%s]' % (p, s) for p in props.split())
@@ -125,6 +125,8 @@ for (mod, f, imp, en, what, table, dflt, props) in CG:
     w('    ensures')
     for (var, codes) in table:
         w('        %s ==> r == Ok::<%s, ErrS>(%s::%s),       // %s %s: every one of these constructors selects this variant' % (' || '.join('v == 0x%02x' % c for c in codes), en, en, var, labs('constructor.every-width-variant'), what))
+    if dflt:
+        w('        !(%s) && r is Ok ==> r == Ok::<%s, ErrS>(%s::%s),       // %s anything else is the other form' % (' || '.join('v == 0x%02x' % c for c in allc), en, en, dflt, labs('constructor.every-width-variant')))
     w('//@@ end')
     w('}')
     w('} // mod %s' % mod)
